@@ -181,6 +181,127 @@ def ob_check_reldir(w, P):
     flag('nontrivial')
     return cl
 
+def ob_check_intruded(w, P):
+    """check() / check(fix=True) of a healthy cache while another client replaces, removes or adds a file-backed item at a symbolic
+    event of the check: whatever the check reads about rows and files it reads under the write lock, so it reports nothing,
+    repairs nothing, and the other client's call is either refused (Timeout) or in full effect afterwards"""
+    L = w.L
+    core = L.core
+    w.clock_fn = lambda: 1000.0
+    cl = []
+    c = core.Cache(w.dir, disk_min_file_size=0)
+    c.set(1, b'old-file-backed-value')
+    c.set(2, 22)
+    other = w.clone_handle(c)
+    w.preconnect(other, (w.pid + 100, 1))
+    opB = P['b']
+    res = {}
+
+    def intruder():
+        old = (w.pid, w.tid)
+        w.pid, w.tid = w.pid + 100, 1
+        try:
+            try:
+                if opB == 'replace':
+                    res['B'] = other.set(1, b'new-file-backed-value!')
+                elif opB == 'delete':
+                    res['B'] = other.delete(1)
+                elif opB == 'insert':
+                    res['B'] = other.set(3, b'third-file-backed-value')
+            except core.Timeout:
+                res['B'] = 'timeout'
+        finally:
+            w.pid, w.tid = old
+    w.interfere_at = w.int('at', 0, P.get('max_events', 16))
+    w.interfere_hook = intruder
+    w.start_events()
+    with warnings.catch_warnings():
+        warnings.simplefilter('always')
+        try:
+            ws1 = c.check(fix=P['fix'])
+            err = None
+        except core.Timeout:
+            ws1, err = [], 'timeout'
+    w.stop_events()
+    w.interfere_hook = None
+    if 'B' not in res:
+        return cl
+    flag('interleaved')
+    with warnings.catch_warnings():
+        warnings.simplefilter('always')
+        ws2 = c.check()
+    k1, k2 = kinds_of(ws1), kinds_of(ws2)
+    cl.append(('C17,C05', 'a check of a healthy cache reports nothing although another client writes meanwhile (%s)' % [str(x_.message)[:40] for x_ in ws1],
+               all(k1[k] == 0 for k in k1 if k != 'emptydir')))
+    cl.append(('C17,C08', 'and a second check reports nothing', all(k2[k] == 0 for k in k2 if k != 'emptydir')))
+    done = res['B'] != 'timeout'
+    if done:
+        flag('intruder_admitted')
+    v1 = c.get(1)
+    want1 = {'replace': b'new-file-backed-value!', 'delete': None, 'insert': b'old-file-backed-value'}[opB] if done else b'old-file-backed-value'
+    cl.append(('C17,C05', "the other client's call is in full effect or was refused; nothing else changed",
+               v1 == want1 and c.get(2) == 22 and c.get(3) == (b'third-file-backed-value' if done and opB == 'insert' else None)
+               and len(c) == (2 + (1 if done and opB == 'insert' else 0) - (1 if done and opB == 'delete' else 0))))
+    flag('nontrivial')
+    return cl
+
+
+def ob_check_il(w, P):
+    """check(fix) and a store by another client, both suspended part-way (the store has written its value file and has not yet
+    asked for the lock when the check runs): afterwards the stored item has its file, or the store was refused"""
+    L = w.L
+    core = L.core
+    w.clock_fn = lambda: 1000.0
+    cl = []
+    c = core.Cache(w.dir, disk_min_file_size=0)
+    c.set(1, b'old-file-backed-value')
+    other = w.clone_handle(c)
+    w.preconnect(other, (w.pid + 100, 1))
+    box = {}
+
+    def run_a():
+        with warnings.catch_warnings(record=True) as rec:
+            warnings.simplefilter('always')
+            try:
+                ws = c.check(fix=P['fix'], retry=True)  # the returned list: catch_warnings does not record reliably off the main thread
+                box['A'] = [str(x_.message)[:60] for x_ in ws]
+            except core.Timeout:
+                box['A'] = 'timeout'
+            except Exception as e:
+                # VACUUM / PRAGMA integrity_check are issued outside the Timeout protocol: with the lock held elsewhere the check is
+                # refused with sqlite3.OperationalError (check is a maintenance call, not one of the data operations of C14)
+                if type(e).__name__ != 'OperationalError':
+                    raise
+                box['A'] = 'locked'
+
+    def run_b():
+        try:
+            box['B'] = other.set(3, b'third-file-backed-value', retry=True)
+        except core.Timeout:
+            box['B'] = 'timeout'
+    at = w.int('at', 0, P.get('max_events', 8))
+    at2 = w.int('at2', 0, P.get('max_events', 8))
+    w.start_events()
+    il = w.interleave(run_a, run_b, at, at2, id_a=(w.pid, 1), id_b=(w.pid + 100, 1))
+    w.stop_events()
+    if not il.b_started:
+        return cl
+    if 'check-fix-removes-pending-value-file' in P.get('exclude', []) and P['fix'] and isinstance(box.get('A'), list) and any(m.startswith('unknown file') for m in box['A']):
+        # known finding: the repairing check met the value file of a store that had not inserted its row yet, and removed it
+        flag('nontrivial')
+        return [('C17,C05,C08,C01', 'excluded: known finding check-fix-removes-pending-value-file', True)]
+    with warnings.catch_warnings(record=True):
+        warnings.simplefilter('always')
+        rec2 = c.check()
+    found = [str(x_.message)[:60] for x_ in rec2 if not str(x_.message).startswith('empty directory')]
+    cl.append(('C17,C05,C08', 'after a check that overlapped a store the cache is consistent (%s; the overlapping check said %s)' % (found, box.get('A')), len(found) == 0))
+    got = c.get(3)
+    cl.append(('C17,C05,C01', 'the item stored meanwhile has its value (or the store was refused)', (got == b'third-file-backed-value') if box.get('B') is True else got is None))
+    cl.append(('C17', 'the old item is untouched', c.get(1) == b'old-file-backed-value'))
+    flag('nontrivial')
+    return cl
+
+
 def jobs(tier):
     out = []
     Ns = [1, 2] if tier == 'quick' else [1, 2, 3]
@@ -189,6 +310,13 @@ def jobs(tier):
         for fix in (False, True):
             out.append(dict(id='check.N=%d.fix=%s' % (N, fix), func='ob_check', params=dict(N=N, fix=fix), tags=['C17', 'C08'], functions=F, weight=N * 10,
                             must_reach=['fixed' if fix else 'report_only']))
+    for b in ('replace', 'delete', 'insert'):
+        for fix in (False, True):
+            out.append(dict(id='check.intruded.%s.fix=%s' % (b, fix), func='ob_check_intruded', params=dict(b=b, fix=fix), tags=['C17', 'C05'], functions=F + ['core.Cache.set', 'core.Cache.delete'],
+                            weight=6, twin=False, must_reach=['interleaved', 'intruder_admitted']))
+    for fix in (False, True):
+        out.append(dict(id='check.il.fix=%s' % fix, func='ob_check_il', params=dict(fix=fix), tags=['C17', 'C05'], functions=F + ['core.Cache.set', 'core.Disk.store'], weight=8, twin=False,
+                        must_reach=['both_suspended']))
     for kind in ('cache', 'fanout'):
         out.append(dict(id='check.reldir.%s' % kind, func='ob_check_reldir', params=dict(kind=kind), tags=['C17'], functions=F + ['core.Disk.remove'], weight=5, twin=False))
         for sp in ('trailing',):
